@@ -875,7 +875,7 @@ def vec_store(M, interp, t, key, v, node):
     owner = t.back.owner
     if owner is not None:
         interp.event('mutation', owner=owner, what='array element store', node=node)
-    if getattr(t.back, 'readonly', False):
+    if getattr(t.back, 'readonly', False) or getattr(t, 'ro', False):
         raise AbsRaise(ExcVal('ValueError', ('assignment destination is read-only',)), node)
 
     def write(pos, cond, e, keep_mask=False):
@@ -966,6 +966,23 @@ class IndexSet:
 
     def shifted(self, k):
         return IndexSet([(p + k, c) for p, c in self.items])
+
+    def abs_getattr(self, interp, name, node):
+        if name in ('size', 'shape'):
+            if all(c in (X.TRUE, X.FALSE) for _, c in self.items):
+                n = sum(1 for _, c in self.items if c == X.TRUE)
+                return n if name == 'size' else (n,)
+            return _undecided_size(self, node) if name == 'size' else (_undecided_size(self, node),)
+        raise AnalysisError(f'attribute {name} of an integer index set not modelled', node)
+
+
+def _undecided_size(ix, node):
+    """size of a data-dependent index set: the exact count, sum of the indicator of every condition"""
+    from .vec import Sc
+    acc = X.num(0)
+    for _, c in ix.items:
+        acc = X.add(acc, X.ite(c, X.num(1), X.num(0)))
+    return Sc(acc, 'i8')
 
 
 # ------------------------------------------------------------------------------------------------
